@@ -86,8 +86,26 @@ class Lower:
             self.bad('condition not in the subset', e)
         return '(BPtr %s)' % self.p(e)
 
+    def desugar(self, stmts):
+        """auto x = std::exchange(a, b);   is   auto x = a; a = b;       (x is new, so it occurs neither in a nor in b)
+           for (INIT; COND;) BODY          is   INIT; while (COND) BODY  (one declaration site per name is required anyway)"""
+        out = []
+        for st in stmts:
+            if st[0] == 'for' and st[3] is None and st[1] is not None and st[2] is not None:
+                out.extend(self.desugar([st[1]]))
+                out.append(('while', st[2], st[4]))
+                continue
+            if (st[0] == 'decl' and len(st[2]) == 1 and st[2][0][1] is not None and st[2][0][1][0] == 'call'
+                    and st[2][0][1][1] == ('id', 'std::exchange') and len(st[2][0][1][2]) == 2):
+                a, b = st[2][0][1][2]
+                out.append(('decl', st[1], [(st[2][0][0], a)]))
+                out.append(('expr', ('assign', '=', a, b)))
+                continue
+            out.append(st)
+        return out
+
     def seq(self, stmts):
-        out = [self.s(x) for x in stmts]
+        out = [self.s(x) for x in self.desugar(stmts)]
         out = [x for x in out if x != 'SSkip']
         if not out:
             return 'SSkip'
